@@ -473,6 +473,11 @@ impl Pase {
         if self.comm_window.is_some() {
             self.comm_window.clear();
 
+            // A PASE handshake in progress was started against the window that is
+            // now gone: forget it, so that it cannot complete against a window
+            // opened later (possibly with another passcode).
+            self.session_timeout = None;
+
             notify_mdns();
             notify_adm_comm_window_attrs_changed(&mut notify_change);
 
